@@ -197,6 +197,8 @@ def run(ctx):
                 vs.append({"float_times": True, "start": -0.75})
             if case["ctl"] and idx % 2 == 0:
                 vs.append({"final_only": True})                 # record_all=False: only the final state
+            if case["edims"] and idx % 4 == 3:
+                vs.append({"container": "file", "layout": "F"})  # through the HDF5 container, tensors not C-contiguous
             if case["edims"] and idx % 4 == 1:
                 vs.append({"buffer": True})                     # tensors handed over in a re-used work buffer
             if all_diag and len(case["edims"]) >= 2:
